@@ -311,9 +311,10 @@ pub fn eval(n: &Node, at: i64) -> R {
                 }
                 Gcd => {
                     let mut g: i128 = 0;
-                    for v in &vs {
+                    for (k, v) in vs.iter().enumerate() {
                         g = gcd_i128(g, *v as i128);
-                        if g > MAX {
+                        // (the first argument alone is not a running gcd yet: gcd(MIN, 2) = 2 is demanded)
+                        if g > MAX && (k > 0 || vs.len() == 1) {
                             // |i64::MIN| as a running gcd: like the sums of avg / med, intermediate
                             // results outside i64 are not specified
                             return RV::Unspec("U3: a running gcd does not fit");
